@@ -1,5 +1,6 @@
 import Plotink.Proofs.C09Loop
 import Plotink.Proofs.C09Gen
+import Plotink.Proofs.C09GenSS
 
 /-! # C09 — vertex reduction keeps the path within tolerance of the original
 
@@ -160,5 +161,79 @@ example : EncPts Py.IsNum (.tup [.tup [.int 0, .int 0], .tup [.flt (1/2), .int 1
       (List.Forall₂.cons ⟨_, _, rfl, Or.inl rfl, Or.inr ⟨1, rfl, by norm_num⟩⟩
         (List.Forall₂.cons ⟨_, _, rfl, Or.inr ⟨2, rfl, by norm_num⟩, Or.inl rfl⟩ List.Forall₂.nil))⟩,
     Or.inr ⟨2, rfl, by norm_num⟩, by decide⟩
+
+/-! ## The regenerated `supersample`
+
+`Gen.supersample` (`lean/Plotink/Gen/supersample.lean`) is regenerated from `plotink/plot_utils.py` on every run:
+both `while` loops run on fuel (the outer loop uses one unit per pass and hands the remaining fuel to the inner
+loop), the in-place slice deletion becomes rebinding, and the function returns `(None, vertices)` so the mutated
+list is visible; `Py.Out.fuelOut` = fuel exhausted.  The theorems are about that definition in exact arithmetic.
+Vertices are values of any type `α` with coordinates `xy : α → Pt` and a Python representation `enc : α → Py.Val`
+as 2-item lists of `int`s/`float`s (`EncPt Py.IsNum (enc a) (xy a)`): distinct vertices may have equal coordinates.
+The harness' driver passes fuel `2*len+5`; `len` is enough.  Proofs: `Proofs/C09GenSS.lean` (one generated pass of
+each loop against one step of `C09.extend` / `C09.outer`, induction on fuel; fuel independence of the model). -/
+
+section
+variable {α : Type} (xy : α → Pt) (enc : α → Py.Val) (henc : ∀ a, EncPt Py.IsNum (enc a) (xy a))
+  (amb : Nat) (tol : Rat) (vt : Py.Val) (ht : Py.IsNum vt tol)
+include henc ht
+
+/-- **bridge** `Gen.supersample = C09.supersample`: for every fuel `≥ len(vertices)` the regenerated code returns
+`(None, the hand model's result)`, vertex by vertex the same encoded objects. -/
+theorem C09_gen_ss_bridge (v : List α) (fuel : Nat) (hf : v.length ≤ fuel) :
+    Gen.supersample Rounding.exact amb fuel (.tup (v.map enc)) vt = encOut enc (supersample xy v tol) :=
+  supersample_bridge xy enc Py.enc_isNum henc amb tol vt ht v fuel hf
+
+/-- fuel `len(vertices)` (a fortiori the `2*len+5` the driver passes) suffices and no `AssertionError` occurs:
+the regenerated code returns `(None, list)` -/
+theorem C09_gen_fuel (v : List α) (fuel : Nat) (hf : v.length ≤ fuel) :
+    ∃ r : List α, Gen.supersample Rounding.exact amb fuel (.tup (v.map enc)) vt = .val (.tup [.none_, .tup (r.map enc)]) := by
+  obtain ⟨r, hr⟩ := C09_fuel xy v tol
+  exact ⟨r, by rw [C09_gen_ss_bridge xy enc henc amb tol vt ht v fuel hf, hr]; rfl⟩
+
+/-- at most two vertices or a non-positive tolerance: the list comes back unchanged (whatever the fuel) -/
+theorem C09_gen_noop (v : List α) (fuel : Nat) (h : v.length ≤ 2 ∨ tol ≤ 0) :
+    Gen.supersample Rounding.exact amb fuel (.tup (v.map enc)) vt = .val (.tup [.none_, .tup (v.map enc)]) :=
+  supersample_gen_noop xy enc Py.enc_isNum henc amb tol vt ht v fuel h
+
+/-- every vertex deleted by the regenerated code lies in a run strictly between two survivors and is closer than
+the tolerance to the segment joining them (`C09.Reduced`, and its index reading) -/
+theorem C09_gen_deleted_close (v : List α) (fuel : Nat) (hf : v.length ≤ fuel) :
+    ∃ r : List α, Gen.supersample Rounding.exact amb fuel (.tup (v.map enc)) vt = .val (.tup [.none_, .tup (r.map enc)]) ∧
+      Reduced xy (tol * tol) v r ∧
+      ∃ idx : List Nat, idx.Pairwise (· < ·) ∧ r.map some = idx.map (fun i => v[i]?) ∧
+        (v ≠ [] → idx.head? = some 0 ∧ idx.getLast? = some (v.length - 1)) ∧
+        ∀ k p, v[k]? = some p → k ∉ idx →
+          ∃ i j l1 l2 a b, idx = l1 ++ i :: j :: l2 ∧ i < k ∧ k < j ∧ v[i]? = some a ∧ v[j]? = some b ∧
+            distSq (xy a) (xy b) (xy p) < tol * tol := by
+  obtain ⟨r, hr⟩ := C09_fuel xy v tol
+  refine ⟨r, by rw [C09_gen_ss_bridge xy enc henc amb tol vt ht v fuel hf, hr]; rfl,
+    C09_deleted_close xy v r tol hr, C09_deleted_close_index xy v r tol hr⟩
+
+/-- the regenerated code returns an in-order sublist of the same vertices that keeps the first and the last -/
+theorem C09_gen_sublist (v : List α) (fuel : Nat) (hf : v.length ≤ fuel) :
+    ∃ r : List α, Gen.supersample Rounding.exact amb fuel (.tup (v.map enc)) vt = .val (.tup [.none_, .tup (r.map enc)]) ∧
+      r.Sublist v ∧ r.head? = v.head? ∧ r.getLast? = v.getLast? := by
+  obtain ⟨r, hr⟩ := C09_fuel xy v tol
+  exact ⟨r, by rw [C09_gen_ss_bridge xy enc henc amb tol vt ht v fuel hf, hr]; rfl, C09_sublist xy v r tol hr⟩
+
+end
+
+/-- the bridge for the all-`float` encoding with the fuel the driver passes, as an equation between functions of
+the rationals: `Gen.supersample (2*len+5) [[x, y], …] tol = (None, C09.supersample …)` -/
+theorem C09_gen_ss_bridge_flt (amb : Nat) (v : List Pt) (tol : Rat) :
+    Gen.supersample Rounding.exact amb (2 * v.length + 5) (encPts v) (.flt tol) =
+      encOut encPt (supersample (fun p => p) v tol) := by
+  rw [encPts_eq_map]
+  exact supersample_bridge (fun p => p) encPt Py.enc_isFlt encPt_isFlt amb tol _ rfl v _ (by omega)
+
+/-- non-vacuity: the hypotheses are met by concrete data, and the generated code really deletes a vertex -/
+example : Gen.supersample Rounding.exact 53 13 (encPts [(0,0), (1,0), (2,0), (3,5)]) (.flt 1) =
+    .val (.tup [.none_, encPts [(0,0), (2,0), (3,5)]]) := by
+  have h := C09_gen_ss_bridge_flt 53 [(0,0), (1,0), (2,0), (3,5)] 1
+  have hm : supersample (fun p : Pt => p) [(0,0), (1,0), (2,0), (3,5)] 1 = some [(0,0), (2,0), (3,5)] := by
+    decide +kernel
+  rw [hm] at h
+  exact h
 
 end Plotink
